@@ -133,7 +133,7 @@ def address_lists(rng, quick):
              ["10.0.0.0/24"], ["192.168.0.0/24", "172.16.0.0/16"], ["0.0.0.0/8", "128.0.0.0/9"], ["10.0.0.0/16", "10.0.0.0/8"],
              ["10.1.0.0/16", "10.0.0.0/8"], ["10.0.0.0/8", "10.1.0.0/16", "10.1.2.0/24"], list(RFC1918) + ["10.1.0.0/16"],
              ["192.168.128.0/17", "192.168.0.0/16", "172.20.0.0/14"], ["50.0.0.0/7", "51.2.0.0/15", "51.3.3.0/24"],
-             ["10.20.30.0"], ["10.0.0.0"], ["192.168.0.0", "11.11.0.0"], ["77.1.0.0/255.255.0.0"], ["11.11.11.0/0.0.0.255", "12.0.0.0/255.0.0.0"],
+             ["0.0.0.0/0"], ["0.0.0.0/0", "10.0.0.0/8"], ["10.20.30.0"], ["10.0.0.0"], ["192.168.0.0", "11.11.0.0"], ["77.1.0.0/255.255.0.0"], ["11.11.11.0/0.0.0.255", "12.0.0.0/255.0.0.0"],
              # dual-stack lists: an IPv6 block before / between IPv4 blocks
              ["2001:db8::/32", "203.0.113.0/24"], ["10.0.0.0/8", "fd00::/8", "11.11.11.0/24"], ["2001:db8:aa::/48", "11.11.11.11", "12.20.0.0/16"]]
     out = list(fixed)
